@@ -164,14 +164,14 @@ def scan_assumptions(text):
         out[k] = len(re.findall(re.escape(k), text))
     return out
 
-def build_unit(src, out_path, stub_fns=(), drop_uses=(), drop_contract_fns=()):
+def build_unit(src, out_path, stub_fns=(), drop_uses=(), drop_contract_fns=(), ext_consts=(), renames=None):
     os.environ["VERIF_REPO_SRC"] = src
     extract.REPO_SRC = src
     specs = sorted(glob.glob(os.path.join(VERIF, "contracts", "*.vspec")))
     shims = sorted(glob.glob(os.path.join(VERIF, "shims", "*.rs"))) + sorted(glob.glob(os.path.join(VERIF, "specs", "*.rs")))
     rx = re.compile(CONFIG["exclude"]) if CONFIG.get("exclude") else None
     inc = (lambda rel: not rx.search(rel)) if rx else None
-    return extract.build(inc, (), specs, shims, out_path, stub_fns=stub_fns, drop_uses=drop_uses, drop_contract_fns=drop_contract_fns)
+    return extract.build(inc, (), specs, shims, out_path, stub_fns=stub_fns, drop_uses=drop_uses, drop_contract_fns=drop_contract_fns, ext_consts=ext_consts, renames=renames)
 
 def obligations_for(ctx):
     """named obligations per property: labelled ensures clauses + one body-safety obligation per fn tagged safety=..."""
@@ -212,25 +212,39 @@ def main(argv):
     if a.write_baseline:
         text, lines_meta, ctx = build_unit(a.src, unit)
         json.dump({"%s|%s::%s" % (f["file"], f["impl"], f["fn"]): f["body_hash"] for f in ctx.fn_index}, open(os.path.join(VERIF, "baseline_fns.json"), "w"), indent=0, sort_keys=True)
+        json.dump({"%s|%s::%s" % (f["file"], f["impl"], f["fn"]): f.get("sig_norm", "") for f in ctx.fn_index}, open(os.path.join(VERIF, "baseline_sigs.json"), "w"), indent=0, sort_keys=True)
         print("baseline written"); return 0
     baseline = {}
     bp = os.path.join(VERIF, "baseline_fns.json")
     if os.path.exists(bp): baseline = json.load(open(bp))
-    stub = set(); drop_uses = set(); stub_reason = {}; drop_contracts = set()
+    stub = set(); drop_uses = set(); stub_reason = {}; drop_contracts = set(); ext_consts = set(); renames = {}
+    base_sigs = {}
+    if os.path.exists(os.path.join(VERIF, "baseline_sigs.json")): base_sigs = json.load(open(os.path.join(VERIF, "baseline_sigs.json")))
     runs = []; undecided = None; base = None
     for attempt in range(10):
         try:
-            text, lines_meta, ctx = build_unit(a.src, unit, stub, drop_uses, drop_contracts)
+            text, lines_meta, ctx = build_unit(a.src, unit, stub, drop_uses, drop_contracts, ext_consts, renames)
         except extract.ExtractError as e:
             return global_fallback(a, props, claimed, "extraction failed: %s" % e)
         lmap = LineMap(lines_meta)
         fns_by_key = {"%s|%s::%s" % (f["file"], f["impl"], f["fn"]): f for f in ctx.fn_index}
         changed = [k for k, f in fns_by_key.items() if baseline and baseline.get(k) != f["body_hash"] and not f["external_body"] and k not in stub]
+        # a contracted function that vanished while a new one with the same signature appeared in the same impl: a rename, the contract follows
+        more = False
+        for lc in getattr(ctx, "lost_contracts", []):
+            fpart, npart = lc["fn"].rsplit("::", 1)
+            cands = [k for k, f in fns_by_key.items() if baseline and k not in baseline and k.rsplit("::", 1)[0] == fpart and not f["contract"] and f.get("sig_norm") == base_sigs.get(lc["fn"])]
+            if len(cands) == 1:
+                f = fns_by_key[cands[0]]
+                if (f["file"], f["impl"], f["fn"]) not in renames: renames[(f["file"], f["impl"], f["fn"])] = npart; more = True
+        if more: continue
         r = run_verus(unit)
         crashed = (r["json"] is None) or ("panicked at" in r["stderr"]) or ("internal compiler error" in r["stderr"])
         fails, frontend, canary = classify(r, lmap, fns_by_key) if r["json"] is not None or r["diags"] else ([], [], False)
         if any("rlimit" in (d.get("message", "").lower()) or "resource limit" in d.get("message", "").lower() for d in r["diags"]):
             undecided = "resource limit exceeded"; break
+        if os.environ.get("RUNNER_DEBUG"):
+            print("DEBUG attempt %d: crashed=%s frontend=%s stub=%s drop_uses=%s" % (attempt, crashed, [(f["message"][:90], f["line"]) for f in frontend[:6]], sorted(stub), sorted(drop_uses)), file=sys.stderr)
         if frontend or crashed:
             progressed = False
             for fe in frontend:
@@ -242,6 +256,8 @@ def main(argv):
                     elif m.get("part") in ("requires", "ensures", "sig") and k not in drop_contracts:
                         # the contract itself does not type-check against the changed signature: drop it, keep the function stubbed
                         drop_contracts.add(k); stub.add(k); stub_reason[k] = "contract no longer fits the changed signature: %s" % fe["message"][:120]; progressed = True
+                elif m and m.get("part") == "item" and m.get("kind") == "const" and m.get("name") and (m["file"], m["name"]) not in ext_consts:
+                    ext_consts.add((m["file"], m["name"])); progressed = True
                 elif m and m.get("part") == "item" and m.get("use_norm"):
                     if (m["file"], m["use_norm"]) not in drop_uses:
                         drop_uses.add((m["file"], m["use_norm"])); progressed = True
@@ -279,8 +295,11 @@ def main(argv):
         unstable = set.union(*names) - set.intersection(*names)
         if unstable:
             print("UNDECIDED: unstable proof (seed-dependent): %s" % sorted(unstable)); return 2
-    new_fns = set(k for k in fns_by_key if baseline and k not in baseline)
+    for lc in getattr(ctx, "lost_contracts", []):
+        print("NOTE: function %s no longer exists; its contract (%s, obligations %s) was dropped - callers are checked against their own contracts" % (lc["fn"], lc["contract"], ", ".join(lc["labels"])[:300]))
+    new_fns = set(k for k in fns_by_key if baseline and k not in baseline and not fns_by_key[k]["contract"])
     new_names = set(fns_by_key[k]["fn"] for k in new_fns)
+    changed_fns = set(k for k, f in fns_by_key.items() if baseline and baseline.get(k) != f["body_hash"])
     per_prop_obl = obligations_for(ctx)
     known = json.load(open(os.path.join(VERIF, "known_findings.json")))
     rc = 0
@@ -340,6 +359,8 @@ def main(argv):
             for n in new_names:
                 if re.search(r"\b%s\s*\(" % re.escape(n), bt): return "calls new function `%s` which has no contract" % n
             if f["fn"] in new_fns: return "function is new and has no contract"
+            if getattr(ctx, "lost_contracts", None) and f["fn"] in changed_fns and any(lc["fn"].split("|")[0] == (f["fn"] or "").split("|")[0] for lc in ctx.lost_contracts):
+                return "a contracted function of this file no longer exists; the proof hints it carried went with it"
             return None
         replay_path = None
         cone_only = bool(new_fails or out_of_reach_cone) and not out_of_reach and all(pid not in f.get("props_direct", f["props"]) for f in new_fails)
